@@ -15,11 +15,14 @@ def run(ctx):
         rr.mc(ctx, rr.INST_B, "rotate", avals="{0,5,8,15}")
         rr.mc(ctx, rr.INST_C, "extprod")
         rr.mc(ctx, rr.INST_D, "extprod")
-    plans = [(rr.INST_A, "A", "spqlios-fma", "optim", 1), (rr.INST_B, "B", "nayuki-portable", "optim", 1), (rr.INST_A, "A", "fftw", "debug", 4)]
+        rr.mc(ctx, rr.INST_E, "extprod")
+        rr.mc(ctx, rr.INST_E, "rotate", avals="{0,1,7,8,9,15}")
+    plans = [(rr.INST_A, "A", "spqlios-fma", "optim", 1), (rr.INST_B, "B", "nayuki-portable", "optim", 1), (rr.INST_A, "A", "fftw", "debug", 4),
+             (rr.INST_C, "C", "spqlios-avx", "optim", 3)]          # n = 3 with key (1,0,1): rotation one key element at a time (see vlib/ringreplay.py)
     after_k2 = [("spqlios-fma", "optim"), ("nayuki-portable", "optim")] if not thorough else [("spqlios-fma", "optim"), ("spqlios-avx", "optim"), ("nayuki-portable", "optim"), ("nayuki-avx", "optim"), ("fftw", "optim")]
     if thorough:
         plans = [(rr.INST_A, "A", be, "optim", 1) for be in ("spqlios-fma", "spqlios-avx", "nayuki-portable", "nayuki-avx", "fftw")] + \
-                [(rr.INST_B, "B", be, "optim", 1) for be in ("spqlios-fma", "fftw", "nayuki-avx")] + [(rr.INST_C, "C", "spqlios-avx", "optim", 2), (rr.INST_D, "D", "fftw", "debug", 1), (rr.INST_B, "B", "spqlios-fma", "debug", 2)]
+                [(rr.INST_B, "B", be, "optim", 1) for be in ("spqlios-fma", "fftw", "nayuki-avx")] + [(rr.INST_C, "C", "spqlios-avx", "optim", 2), (rr.INST_C, "C", "nayuki-portable", "optim", 3), (rr.INST_E, "E", "nayuki-avx", "optim", 2), (rr.INST_G, "G", "fftw", "optim", 3), (rr.INST_D, "D", "fftw", "debug", 1), (rr.INST_B, "B", "spqlios-fma", "debug", 2)]
     for inst, tag, be, kind, take in plans:
         bad, rows = rr.replay(ctx, inst, tag, be, kind, ("ext", "rot"), ctx.seed, take=take)
         if bad and "crash" in bad:
